@@ -80,6 +80,11 @@ public:
   CartesianCoordinate3D<float> point_coord(std::size_t i) const { return this->scatt_points_vector[i].coord; }
   float point_mu(std::size_t i) const { return this->scatt_points_vector[i].mu_value; }
   std::size_t num_detection_points() const { return this->detection_points_vector.size(); }
+  std::string detector_str(unsigned d) const
+  {
+    const CartesianCoordinate3D<float>& c = this->detection_points_vector[d];
+    return vf::fmt("det %u at (z %.6g, y %.6g, x %.6g)", d, static_cast<double>(c.z()), static_cast<double>(c.y()), static_cast<double>(c.x()));
+  }
   bool cache_flag() const { return this->use_cache; }
   float threshold_value() const { return this->attenuation_threshold; }
 };
@@ -225,6 +230,11 @@ gen_tmpl(Rng& rng, const World& w)
         if (k >= 2 && k <= t.ndet / 4)
           d.push_back(k);
       t.trans_per_block = rng.pick(d);
+      // no bin may join two crystals of the same (flat) block: such a line lies in the detector face, the library's incidence
+      // cosine (taken w.r.t. the direction to the scanner axis, documented \todo "orientations are determined by using a
+      // cylindrical scanner") is 0 or negative there and the normalisation divides by it.  No real template contains such bins.
+      // With at most ndet/2+1 tangential positions the two detectors are >= ndet/4 >= trans_per_block crystals apart.
+      t.num_tang = std::min(t.num_tang, t.ndet / 2 + 1);
       const float crystal = static_cast<float>(2 * 3.14159265 * t.radius / t.ndet) * 0.95f;
       sc.reset(new Scanner(Scanner::User_defined_scanner, std::string("verif_c16_blocks"), t.ndet, t.nrings, maxbins, maxbins, t.radius,
                            /*doi*/ 0.f, t.ring_spacing, bin_size, /*tilt*/ 0.f, /*axial blocks per bucket*/ t.nrings,
@@ -621,7 +631,8 @@ case_pairs(Ctx& ctx)
       if (!std::isfinite(eab) || !std::isfinite(eba) || eab < 0 || eba < 0)
         {
           ctx.violation("pairs:negative-or-non-finite-estimate",
-                        vf::fmt("%s detectors (%u,%u): est(A,B)=%.17g est(B,A)=%.17g", bin_str(bin).c_str(), a, b, eab, eba));
+                        vf::fmt("%s detectors (%u,%u): est(A,B)=%.17g est(B,A)=%.17g; %s, %s", bin_str(bin).c_str(), a, b, eab, eba,
+                                o1.sim.detector_str(a).c_str(), o1.sim.detector_str(b).c_str()));
           return;
         }
       if (eab == eba)
